@@ -584,6 +584,77 @@ func c19r20(c *Ctx, r *Report) {
 		"entries are normalised before classification", "a skip entry is classified as written: one with a trailing separator can never match a path")
 }
 
+// c15r36: the header can live in a window of its own (--header-border, --header-lines-border, or merely because
+// --input-border is set). Showing or hiding the header then adds or removes a window, which only a full redraw
+// (resizeWindows) does; a repaint of the existing windows leaves the old header where it was (D120: show-header /
+// hide-header / toggle-header requested list, info, prompt and header only: with --input-border the header lines
+// stayed on the screen after hide-header, and the list did not get the freed rows).
+func c15r36(c *Ctx, r *Report) {
+	l := c.L
+	r.rule("C15-R36", "A (a header window that has to come or go asks for a full redraw)", "P1",
+		"Terminal.Loop has a closure that requests reqFullRedraw under a comparison involving Terminal.hasHeaderWindow, and every path from a store into Terminal.headerVisible to a return passes a call of that closure",
+		"hide-header / show-header / toggle-header do nothing on the screen when the header has a window of its own: the state says hidden, the screen shows the header")
+	loop := l.Fn("fzf", "(*Terminal).Loop")
+	hhw := l.Fn("fzf", "(*Terminal).hasHeaderWindow")
+	fHV := l.Field("fzf", "Terminal", "headerVisible")
+	kF := l.Const("fzf", "reqFullRedraw")
+	if loop == nil || hhw == nil || fHV == nil || kF == nil {
+		r.unest("anchors", token.NoPos, nil, "anchors Terminal.Loop / hasHeaderWindow / headerVisible / reqFullRedraw", "cannot resolve")
+		return
+	}
+	vf, _ := constantInt64(kF)
+	cc := cdCache{}
+	// the closure
+	var helper *ssa.Function
+	for _, g := range withClosures(loop) {
+		eachInstr(g, func(in ssa.Instruction) {
+			if !requestsEvent(in, vf) {
+				return
+			}
+			for cond := range cc.of(in) {
+				for v := range backwardSlice(cond, func(*ssa.CallCommon) bool { return true }, nil) {
+					if call, ok := v.(*ssa.Call); ok && call.Common().StaticCallee() == hhw {
+						helper = g
+					}
+				}
+			}
+		})
+	}
+	if !r.check(helper != nil, relName(loop)+":a full redraw is requested when the header window has to come or go", loop.Pos(), loop,
+		"req(reqFullRedraw) under a test with hasHeaderWindow()", "no request of a full redraw depends on whether the header window exists") {
+		return
+	}
+	callsHelper := func(in ssa.Instruction) bool {
+		call, ok := in.(*ssa.Call)
+		if !ok || call.Common().IsInvoke() || call.Common().StaticCallee() != nil {
+			return false
+		}
+		for v := range backwardSlice(call.Call.Value, nil, nil) {
+			if mc, ok := v.(*ssa.MakeClosure); ok && mc.Fn == ssa.Value(helper) {
+				return true
+			}
+		}
+		return false
+	}
+	n := 0
+	for _, g := range withClosures(loop) {
+		eachInstr(g, func(in ssa.Instruction) {
+			st, ok := in.(*ssa.Store)
+			if !ok {
+				return
+			}
+			if f, _ := fieldOf(st.Addr); f != fHV {
+				return
+			}
+			n++
+			hit := pathAvoiding(st, isReturn, callsHelper, nil)
+			r.check(hit == nil, fmt.Sprintf("%s:change #%d of the header's visibility may ask for a full redraw", relName(loop), n), st.Pos(), g,
+				"the helper is called", "the header is shown or hidden with a repaint of the existing windows only")
+		})
+	}
+	r.floor("stores into Terminal.headerVisible in Terminal.Loop", n, 3)
+}
+
 func round12(c *Ctx, r *Report, prop string) {
 	switch prop {
 	case "C06":
@@ -607,6 +678,7 @@ func round12(c *Ctx, r *Report, prop string) {
 		c15r33(c, r)
 		c15r34(c, r)
 		c15r35(c, r)
+		c15r36(c, r)
 		c14r22(c, r) // no counted character is filtered out by a wider test than the C0/C1 ranges
 	}
 }
